@@ -47,7 +47,7 @@ def generate(run_seed, prop, tier="quick"):
     mode = "owned" if rng.random() < 0.6 else "seed"
     entropy = {"key": rng.randrange(2 ** 40), "steer": rng.choice([0.0, 0.15, 0.4, 0.8]) if mode == "owned" else 0.0,
                "edge": rng.choice([0.0, 0.0, 0.05, 0.2]) if mode == "owned" else 0.0}
-    faults = {f: rng.random() < 0.55 for f in ("abort", "foreign", "clock", "cotenant", "again", "noseed", "ownparse")}
+    faults = {f: rng.random() < 0.55 for f in ("abort", "foreign", "clock", "cotenant", "again", "noseed", "ownparse", "scribble")}
     ops = []
     seeds = [rng.randrange(10 ** 9) for _ in range(3)]
     n_ops = rng.randint(2, 6)
@@ -56,8 +56,10 @@ def generate(run_seed, prop, tier="quick"):
         roll = rng.random()
         if roll < 0.55 or not ops:
             ops.append({"op": "cs", "cfg": cfg, "seed": rng.choice(seeds)})
-        elif roll < 0.65 and faults["again"]:
+        elif roll < 0.62 and faults["again"]:
             ops.append({"op": "again", "cfg": cfg})
+        elif roll < 0.66 and faults["scribble"]:
+            ops.append({"op": "scribble_last", "cfg": cfg, "how": rng.randrange(3)})
         elif roll < 0.73 and faults["noseed"]:
             ops.append({"op": "cs_none", "cfg": cfg, "clock": rng.choice([0, 1, 1700000000 * 10 ** 9, 2 ** 63 - 5, rng.randrange(2 ** 62)])})
         elif roll < 0.81 and faults["foreign"]:
@@ -455,6 +457,7 @@ def run_history(scenario, only=None):
     parsed = {}
     shared_dicts = {}
     last_sampler = {}
+    last_molecule = {}
 
     def templates_for(idx):
         if idx not in parsed:
@@ -540,6 +543,7 @@ def run_history(scenario, only=None):
                     mol = do_sample(idx, sampler, event)
                 event["dig"] = digest(mol)
                 event["out"] = "ok"
+                last_molecule[idx] = mol
             elif kind == "again":
                 sampler = last_sampler.get(op["cfg"])
                 if sampler is None:
@@ -548,6 +552,7 @@ def run_history(scenario, only=None):
                     mol = do_sample(op["cfg"], sampler, event, judge_masses=False)
                     event["dig"] = digest(mol)
                     event["out"] = "ok"
+                    last_molecule[op["cfg"]] = mol
             elif kind == "foreign_rng":
                 stdlib_random.seed(op["seed"])
                 np.random.seed(op["seed"] % 2 ** 32)
@@ -559,6 +564,31 @@ def run_history(scenario, only=None):
             elif kind == "clock_jump":
                 clock.jump(op["delta"])
                 event["out"] = "ok"
+            elif kind == "scribble_last":
+                # the caller owns what sample() returned and edits it in place
+                mol = last_molecule.get(op["cfg"])
+                if mol is None:
+                    event["out"] = "skipped"
+                else:
+                    for node in list(mol.nodes):
+                        data = mol.nodes[node]
+                        for key, val in list(data.items()):
+                            if isinstance(val, list):
+                                if op["how"] == 0:
+                                    val.clear()
+                                else:
+                                    val.append("$scribble1")
+                            elif isinstance(val, dict):
+                                val["scribble"] = 1
+                        if op["how"] == 2:
+                            data["element"] = "Xx"
+                            data["atomname"] = "scribbled"
+                            data["fragname"] = "scribbled"
+                    for u, v in list(mol.edges):
+                        mol.edges[u, v]["order"] = 9
+                    if op["how"] == 1:
+                        mol.remove_nodes_from(list(mol.nodes)[::2])
+                    event["out"] = "ok"
             elif kind == "helper_call":
                 # another part of the host program uses the package's public helpers on plain pysmiles graphs
                 import pysmiles
@@ -726,6 +756,8 @@ def execute(scenario):
             stats["fault:clock-jump:fired"] = stats.get("fault:clock-jump:fired", 0) + 1
         if ev["op"] == "co_resolve":
             stats["fault:cotenant:fired"] = stats.get("fault:cotenant:fired", 0) + 1
+        if ev["op"] == "scribble_last" and ev.get("out") == "ok":
+            stats["fault:scribble:fired"] = stats.get("fault:scribble:fired", 0) + 1
         if ev["op"] == "helper_call":
             stats["fault:foreign-helper-call:fired"] = stats.get("fault:foreign-helper-call:fired", 0) + 1
         if ev["op"] == "own_parse_edit":
